@@ -632,3 +632,8 @@ _TAILS = {
 for _k, _v in _TAILS.items():
     if _k in PROPS and _v not in PROPS[_k]["rule"]:
         PROPS[_k]["rule"] = PROPS[_k]["rule"] + _v
+
+# cheap properties explore deeper in the thorough tier (each still a few minutes)
+PROPS["C17"]["thorough"].update({"scale": 50})
+PROPS["C19"]["thorough"].update({"scale": 50})
+PROPS["C02"]["thorough"].update({"scale": 16})
